@@ -187,11 +187,35 @@ theorem lowestInit_le_out (fsb : Nat) (m : Mods) (hg : m.graphOk fsb = true) :
     · repeat' split
       all_goals omega
 
+theorem mem_reqStores {m : Mods} {x : Nat} (h : x ∈ m.reqStores) : x ∈ m.out :: m.stores := by
+  unfold Mods.reqStores at h
+  split at h
+  · rcases List.mem_append.1 h with h | h
+    · exact List.mem_cons_of_mem _ h
+    · simp at h; subst h; simp
+  · exact List.mem_cons_of_mem _ h
+
+theorem stores_sub_reqStores {m : Mods} {x : Nat} (h : x ∈ m.stores) : x ∈ m.reqStores := by
+  unfold Mods.reqStores; split
+  · exact List.mem_append_left _ h
+  · exact h
+
+theorem out_mem_reqStores {m : Mods} (h : m.outIsStore = true) : m.out ∈ m.reqStores := by
+  simp [Mods.reqStores, h]
+
+theorem graphOk_reqStores (fsb : Nat) (m : Mods) (hg : m.graphOk fsb = true) :
+    ∀ s ∈ m.reqStores, s = 0 ∨ fsb ≤ s := by
+  intro s hs
+  have h := (graphOk_iff fsb m).1 hg
+  rcases List.mem_cons.1 (mem_reqStores hs) with h1 | h1
+  · subst h1; exact h.1
+  · exact h.2 s h1
+
 theorem lowestInit_le_lowestStores (fsb : Nat) (m : Mods) (ls : Nat)
     (h : m.lowestStoresInitBlock fsb = some ls) : m.lowestInitBlock fsb ≤ ls := by
   unfold Mods.lowestStoresInitBlock at h
   unfold Mods.lowestInitBlock
-  cases hs : lowestOf m.stores with
+  cases hs : lowestOf m.reqStores with
   | none => rw [hs] at h; simp at h
   | some x =>
     rw [hs] at h
@@ -201,15 +225,15 @@ theorem lowestInit_le_lowestStores (fsb : Nat) (m : Mods) (ls : Nat)
     | none => simp [lowestOf_eq_none] at hl
     | some l =>
       have hl' := lowestOf_spec hl
-      have : l ≤ x := hl'.2 x (List.mem_cons_of_mem _ hx.1)
+      have : l ≤ x := hl'.2 x (mem_reqStores hx.1)
       simp only []
       subst h
       split <;> split <;> omega
 
 theorem lowestStores_none_iff (fsb : Nat) (m : Mods) :
-    m.lowestStoresInitBlock fsb = none ↔ m.stores = [] := by
+    m.lowestStoresInitBlock fsb = none ↔ m.reqStores = [] := by
   unfold Mods.lowestStoresInitBlock
-  cases hs : lowestOf m.stores with
+  cases hs : lowestOf m.reqStores with
   | none => simp [lowestOf_eq_none.1 hs]
   | some x =>
     simp only [reduceCtorEq, false_iff]
@@ -219,10 +243,10 @@ theorem lowestStores_none_iff (fsb : Nat) (m : Mods) :
 (mapped) initial blocks -/
 theorem lowestStores_spec (fsb : Nat) (m : Mods) (hg : m.graphOk fsb = true) (ls : Nat)
     (h : m.lowestStoresInitBlock fsb = some ls) :
-    (∃ s ∈ m.stores, mapInit fsb s = ls) ∧ ∀ s ∈ m.stores, ls ≤ mapInit fsb s := by
-  have hg' := ((graphOk_iff fsb m).1 hg).2
+    (∃ s ∈ m.reqStores, mapInit fsb s = ls) ∧ ∀ s ∈ m.reqStores, ls ≤ mapInit fsb s := by
+  have hg' := graphOk_reqStores fsb m hg
   unfold Mods.lowestStoresInitBlock at h
-  cases hs : lowestOf m.stores with
+  cases hs : lowestOf m.reqStores with
   | none => rw [hs] at h; simp at h
   | some x =>
     rw [hs] at h
@@ -241,9 +265,9 @@ theorem lowestStores_spec (fsb : Nat) (m : Mods) (hg : m.graphOk fsb = true) (ls
 
 /-- the raw lowest store block is a lower bound of `LowestStoresInitBlock` (no assumption on the graph) -/
 theorem lowestStores_ge_raw (fsb : Nat) (m : Mods) (ls x : Nat)
-    (h : m.lowestStoresInitBlock fsb = some ls) (hx : ∀ s ∈ m.stores, x ≤ s) : x ≤ ls := by
+    (h : m.lowestStoresInitBlock fsb = some ls) (hx : ∀ s ∈ m.reqStores, x ≤ s) : x ≤ ls := by
   unfold Mods.lowestStoresInitBlock at h
-  cases hs : lowestOf m.stores with
+  cases hs : lowestOf m.reqStores with
   | none => rw [hs] at h; simp at h
   | some y =>
     rw [hs] at h
@@ -337,11 +361,11 @@ theorem buildRequestDetails_ok {env : Env} {m : Mods} {req : Request} {d : Detai
     ∃ r, resolveStartBlockNum env req = .ok r ∧ d.start = r.start ∧ u = r.undo ∧ d.stop = req.stop ∧
       d.production = req.production ∧ d.rpath = r.path ∧
       (computeLinearHandoffP req.production r.start req.stop env.final
-          (reprocStateRequired r.start m.stores) env.seg).1 ≠ .prodNoFinalOpenEnded ∧
+          (reprocStateRequired r.start m.reqStores) env.seg).1 ≠ .prodNoFinalOpenEnded ∧
       d.hpath = (computeLinearHandoffP req.production r.start req.stop env.final
-          (reprocStateRequired r.start m.stores) env.seg).1 ∧
+          (reprocStateRequired r.start m.reqStores) env.seg).1 ∧
       d.handoff = (computeLinearHandoffP req.production r.start req.stop env.final
-          (reprocStateRequired r.start m.stores) env.seg).2 ∧
+          (reprocStateRequired r.start m.reqStores) env.seg).2 ∧
       d.gate = (if d.start > d.handoff then d.start else d.handoff) ∧
       d.cursor = (if d.start < d.handoff then none else r.cursor) := by
   unfold buildRequestDetails at h
@@ -353,7 +377,7 @@ theorem buildRequestDetails_ok {env : Env} {m : Mods} {req : Request} {d : Detai
     refine ⟨r, rfl, ?_⟩
     unfold computeLinearHandoff at h
     generalize hph : computeLinearHandoffP req.production r.start req.stop env.final
-      (reprocStateRequired r.start m.stores) env.seg = ph at h
+      (reprocStateRequired r.start m.reqStores) env.seg = ph at h
     obtain ⟨path, hv⟩ := ph
     cases path <;> simp only [] at h <;>
       first
